@@ -18,6 +18,14 @@ import (
 //
 //	func VerifRC2New(key []byte, t1 int) (cipher.Block, error) { return rc2.New(key, t1) }
 
+const rc2HookAvailable = true
+
+// rc2ForConcurrent builds one RC2 value and its oracle for the shared-value streams.
+func rc2ForConcurrent(key []byte, t1 int) (blk, *oracle, error) {
+	c, err := pkcs12.VerifRC2New(key, t1)
+	return c, rc2Oracle(key, t1), err
+}
+
 func rc2Oracle(key []byte, t1 int) *oracle {
 	o := &oracle{wit: []witness{
 		{"libcrypto", func(enc bool, in []byte) ([]byte, error) { return opensslrc2.ECB(enc, key, t1, in) }},
